@@ -265,6 +265,21 @@ pub fn date_bounds(specs: &[RuleSpec], which: usize) {
         vrt::check("bounds: stream starts at the requested start", from_i.lt(lim).implies(its[0].start.eq(from_i)));
         vrt::check("bounds: stream covers up to min(to, 10000-01-01)", from_i.lt(lim).implies(its[its.len() - 1].end.eq(lim)));
     }
+    // pointwise inside the window: the interval containing an instant has the kind the daily schedule gives it
+    // (closed outside the supported range); a jump over 1900-01-01 or a late start at 10000 shows here
+    let ps = vrt::fresh_int("p_s", 0, SECS - 1);
+    let ndays = days_between(d_to, d_from);
+    for k in 0..=ndays {
+        let day = day_after(d_from, k);
+        let t = instant_of(datetime(day, ps));
+        let inside = from_i.le(t).and(t.lt(lim));
+        let mut got = SymInt::Const(-2);
+        for i in its.iter().rev() {
+            got = SymInt::ite(i.start.le(t).and(t.lt(i.end)), SymInt::Const(kind_code(i.kind)), got);
+        }
+        let want = sched_kind(&oh, day, ps);
+        vrt::check("bounds: inside the window every interval has the state the daily schedule gives (closed outside 1900..9999)", inside.implies(got.eq(want)));
+    }
     // next_change never at or beyond 10000-01-01; from before 1900 it is the first non-closed instant
     // (asked only when the 8-day stream shows a change, or at/after the end of the range where the
     // answer is immediate: otherwise the evaluator walks day by day up to year 9999)
